@@ -175,6 +175,100 @@ func c09BackgroundMergeTask(cfg Cfg, rounds int) func(res *TaskResult) {
 	}
 }
 
+// ---- two databases in one process ------------------------------------------------------------------------------
+// Nothing in the engine may be shared between two DB instances of one process except what is synchronised (the
+// buffer pools). Second FREE-RUNNING pass under the race detector: two databases in different directories, each
+// with several data files of garbage, are driven by two goroutines at the same time (Merge, writes, a batch, every
+// read path, Stat, Sync, a second Merge, the restart that adopts the merge through its hint file). Oracles: the
+// race detector (a process-wide scratch buffer written by both is reported whatever the timing, since nothing
+// orders the two goroutines), every reply against each database's own reference map, no error, no panic.
+func c09TwoDatabasesTask(cfg Cfg, n int) func(res *TaskResult) {
+	return func(res *TaskResult) {
+		beginExecution()
+		sched.SetMode(sched.ModeOff)
+		defer sched.SetMode(sched.ModeSeq)
+		res.Execs++
+		res.count("free_running_executions", 1)
+		var keys []string
+		for i := 0; i < n; i++ {
+			keys = append(keys, fmt.Sprintf("k%03d", i))
+		}
+		fail := func(clause, sig, detail string) {
+			res.Violations = append(res.Violations, Violation{Prop: "C09", Clause: clause, Sig: sig,
+				Detail: fmt.Sprintf("cfg=%s two databases in one process, %d keys each, driven by two goroutines at the same time (merge, put, delete, batch, reads, Stat, Sync, merge, restart)\n%s", cfg, n, detail),
+				Replay: mustJSON(map[string]any{"engine": "free-running-two", "property": "C09", "cfg": cfg, "n": n})})
+		}
+		var ws [2]*World
+		for d := range ws {
+			w := NewWorld(cfg, keys)
+			defer w.Destroy()
+			ws[d] = w
+			if err := w.Open(); err != nil {
+				res.Err = "two databases: open: " + panicDetail(err)
+				return
+			}
+			for round := 0; round < 2; round++ {
+				for i, k := range keys {
+					if ar := w.Apply(Op{K: "put", Key: k, VC: "F", Arg: 9 + 13*d + (i+round)%7}); ar.Err != nil {
+						res.Err = "two databases: preload: " + panicDetail(ar.Err)
+						return
+					}
+				}
+			}
+		}
+		script := func(d int) []Op {
+			return []Op{{K: "merge"}, {K: "put", Key: keys[d], VC: "S"}, {K: "del", Key: keys[2+d]},
+				{K: "batch", Sub: []Op{{K: "put", Key: keys[4+d], VC: "S"}, {K: "del", Key: keys[6+d]}}}, {K: "sync"}, {K: "merge"},
+				{K: "restart"}, {K: "put", Key: keys[8+d], VC: "S"}, {K: "merge"}, {K: "restart"}}
+		}
+		bad := make([]string, 2)
+		done := make(chan int, 2)
+		for d := range ws {
+			go func(d int) {
+				defer func() { done <- d }()
+				w := ws[d]
+				for i, op := range script(d) {
+					var ar ApplyResult
+					if op.K == "merge" { // (Apply sets the process-wide scan-order seam: not from two goroutines)
+						ar.Err = w.guard(func() error { return w.DB.Merge() })
+					} else {
+						ar = w.Apply(op)
+					}
+					if ar.Err != nil || ar.Clause != "" || w.Dead {
+						bad[d] = fmt.Sprintf("database %d step %d %s: %s %s %s", d, i, op, errClass(ar.Err), panicDetail(ar.Err), ar.Detail)
+						return
+					}
+					if c, det := w.CheckReads(); c != "" {
+						bad[d] = fmt.Sprintf("database %d after step %d %s: %s: %s", d, i, op, c, det)
+						return
+					}
+				}
+			}(d)
+		}
+		<-done
+		<-done
+		res.Transitions += 2 * int64(len(script(0)))
+		for d := range ws {
+			ws[d].Close()
+		}
+		now := raceCount()
+		if k := now - raceSeen; k > 0 {
+			rep := raceReport(raceSeen)
+			raceSeen = now
+			fail("data-race", "data-race:two-databases:"+raceSig(rep), "the race detector reported:\n"+truncate(rep, 2500))
+			return
+		}
+		for d := range bad {
+			if bad[d] != "" {
+				fail("two-databases", "two-databases", bad[d])
+				return
+			}
+		}
+		res.Nontrivial++
+		res.States = append(res.States, hash64("two-databases", cfg.String()))
+	}
+}
+
 func c09Tasks(tier string) []Task {
 	pbPairs, pbTriples := 2, 1
 	if tier == "thorough" {
@@ -244,6 +338,13 @@ func c09Tasks(tier string) []Task {
 	}
 	for _, cfg := range bm {
 		tasks = append(tasks, Task{Level: "background-merge-free-running", Name: "background merge " + cfg.String(), Fn: c09BackgroundMergeTask(cfg, rounds)})
+	}
+	for _, ix := range []int8{1, 2, 3} {
+		for _, io := range []byte{0, 1} {
+			c := defaultCfg
+			c.Index, c.IO, c.FileSize = ix, io, 2048
+			tasks = append(tasks, Task{Level: "two-databases-free-running", Name: "two databases " + c.String(), Fn: c09TwoDatabasesTask(c, 120)})
+		}
 	}
 	return tasks
 }
@@ -334,6 +435,28 @@ func init() {
 			return map[string]any{"pairs": len(multisets(len(c09Calls), 2)), "triples": "all with a writer", "preemption_bound_pairs": 3, "preemption_bound_triples": 2, "configs": 6}
 		},
 		Replay: func(raw json.RawMessage) {
+			var fr struct {
+				Engine string `json:"engine"`
+				Cfg    Cfg    `json:"cfg"`
+				Rounds int    `json:"rounds"`
+				N      int    `json:"n"`
+			}
+			json.Unmarshal(raw, &fr)
+			if fr.Engine == "free-running" || fr.Engine == "free-running-two" {
+				// a free-running pass is re-run, not replayed: the race detector's verdict does not depend on the timing
+				var res TaskResult
+				if fr.Engine == "free-running" {
+					c09BackgroundMergeTask(fr.Cfg, fr.Rounds)(&res)
+				} else {
+					c09TwoDatabasesTask(fr.Cfg, fr.N)(&res)
+				}
+				if len(res.Violations) > 0 {
+					fmt.Printf("VIOLATION clause=%s\n%s\n", res.Violations[0].Clause, res.Violations[0].Detail)
+					os.Exit(1)
+				}
+				fmt.Println("no violation on this tree (race build:", raceBuild, ")", res.Err)
+				return
+			}
 			var r schedReplay
 			json.Unmarshal(raw, &r)
 			ex := runScenario(r.Scenario, r.Schedule, false)
